@@ -5,6 +5,7 @@ From Coq Require Import List Arith Bool.
 Import ListNotations.
 From LCC Require Import Base.Util Model.Proj Model.Sched Model.Fixture Model.TaskSem Model.TaskSemEq
      Proofs.ProtocolP Proofs.VerdictP Proofs.SchedP.
+From LCC Require Model.Report Model.Events Model.Writer Proofs.WriterFilingP.
 
 (* A test that is executed ends with TaskFailure (hence is reported failed, marks its location failed and makes its
    dependents skip) if and only if one of its threads put a failing event (error log / failed check) on the event queue;
@@ -48,3 +49,31 @@ Example C02_witness :
   to_res (test_run (fun _ => IAbsent) [5; 7] [5] t1 hk []) = TkFailure /\
   to_res (test_run (fun _ => IAbsent) [5; 7] [5] t2 hk []) = TkSuccess.
 Proof. split; vm_compute; reflexivity. Qed.
+
+(* ---- the report writer (Model/Writer.v = reporting/writer.py ReportWriter, tied to the code by C18's correspondence) ----
+   the status written into the report: for ANY writer state and any End event the writer accepts (test end, suite / session
+   setup end, suite / session teardown end) the result gets an end time and the status passed or failed, passed exactly
+   when Result.is_successful() holds of what was recorded, and nothing else in the report changes ... *)
+Module WriterLevel.
+Import Report Events Writer WriterFilingP.
+
+Theorem C02_report_status_sound : forall w e w' loc t, apply w e = Ok w' -> end_of e = Some (loc, t) ->
+  exists r r', get_result w loc = Some r /\ get_result w' loc = Some r' /\
+    r_steps r' = r_steps r /\ r_start r' = r_start r /\ r_end r' = Some t /\ r_status_details r' = r_status_details r /\
+    (r_status r' = Some s_passed \/ r_status r' = Some s_failed) /\
+    (r_status r' = Some s_passed <-> result_successful r = true) /\
+    (r_status r' = Some s_failed <-> result_successful r = false) /\
+    (forall l, l <> loc -> get_result w' l = get_result w l) /\ w_active w' = w_active w.
+Proof. exact status_sound. Qed.
+Print Assumptions C02_report_status_sound.
+
+(* ... and for a result that was not finalised before, is_successful() is "no error log and no failed check among the
+   recorded logs": reported passed iff every recorded log is successful, failed iff one is not *)
+Theorem C02_report_status_from_logs : forall w e w' loc t, apply w e = Ok w' -> end_of e = Some (loc, t) ->
+  exists r r', get_result w loc = Some r /\ get_result w' loc = Some r' /\ logs_of r' = logs_of r /\
+    ((r_status r = None \/ r_status r = Some []) ->
+       (r_status r' = Some s_passed <-> forall lg, In lg (logs_of r) -> log_successful lg = true) /\
+       (r_status r' = Some s_failed <-> exists lg, In lg (logs_of r) /\ log_successful lg = false)).
+Proof. exact status_from_logs. Qed.
+Print Assumptions C02_report_status_from_logs.
+End WriterLevel.
